@@ -68,6 +68,125 @@ def check_header(rep, R, enc, expect_prefix, where):
             rep.violation(R, enc.body.name, "header-byte-%d" % i, "header byte %d is %s, specified %s" % (i, fmt_byte(b), desc), where)
 
 
+def group_typestate(rep, R4, enc, cnt, gsize, where):
+    """Graph rules on the group buffer (need only the token counter and the group size)."""
+    def src_root(t):
+        while True:
+            t = strip_refs(t)
+            if t[0] in ("index", "field", "cast", "subslice"):
+                t = t[1]
+            elif t[0] == "call" and t[2] and t[1].rsplit("::", 1)[-1] in ("index", "index_mut", "deref", "deref_mut", "as_slice", "as_mut_slice", "borrow"):
+                t = t[2][0]
+            else:
+                return norm(t)
+
+    def ext_events(p):
+        return [e for e in p.events if e["k"] == "call" and e["callee"] and e["callee"].rsplit("::", 1)[-1] in ("extend_from_slice", "append", "extend") and len(e["args"]) > 1]
+    in_loop = set()
+    for blks in enc.body.loops().values():
+        in_loop |= set(blks)
+    group_roots = set(src_root(e["args"][1]) for p in enc.paths if p.end == "loop" for e in ext_events(p) if e["bb"] in in_loop)
+
+    def flushes(p):
+        return [e for e in ext_events(p) if not group_roots or src_root(e["args"][1]) in group_roots]
+    # flush / reset pairing on the graph (across iterations): once a group has been copied to the output, the token
+    # counter must be reset before the next copy, or the same group is written twice
+    body = enc.body
+    cl = cnt[1] if cnt[0] in ("var", "local") else None
+    if cl is not None and group_roots:
+        fl_blocks = set(e_["bb"] for p_ in enc.paths for e_ in flushes(p_))
+        resets = set()
+        for bi_, si_, st_ in body.stmts():
+            if st_["k"] == "assign" and not st_["lhs"]["p"] and st_["lhs"]["l"] == cl and st_["rv"]["k"] == "use" and "k" in st_["rv"]["a"]:
+                resets.add(bi_)
+        twice = None
+        from flow import dom_guards as _dg, cond_truth as _ct
+
+        def known_at(f_):
+            """value of the counter established by the guards of the flush block (`count == 8`), if any"""
+            for (a_, s_, c_) in _dg(body, f_):
+                ct_ = _ct(c_)
+                if ct_ and ct_[0][0] == "bin" and ct_[0][1] in ("Eq", "Ne") and ct_[0][3][0] == "const" and strip_refs(ct_[0][2])[:2] == ("var", cl):
+                    if (ct_[0][1] == "Eq") == ct_[1]:
+                        return ct_[0][3][1]
+            return None
+
+        def writes_counter(x_):
+            return any(st_["k"] == "assign" and not st_["lhs"]["p"] and st_["lhs"]["l"] == cl for st_ in body.blocks[x_]["stmts"])
+
+        for f_ in sorted(fl_blocks):
+            seen_, st2 = set(), [(s_, known_at(f_)) for s_ in body.succs(f_)]
+            while st2:
+                x_, kv = st2.pop()
+                if (x_, kv) in seen_:
+                    continue
+                seen_.add((x_, kv))
+                if x_ in fl_blocks:
+                    twice = (f_, x_)
+                    break
+                if x_ in resets:
+                    continue
+                if writes_counter(x_):
+                    kv = None
+                tt_ = body.blocks[x_]["term"]
+                nxt_ = list(body.succs(x_))
+                if kv is not None and tt_["k"] == "switch":
+                    d_ = body.term_of_operand(tt_["d"])
+                    if d_[0] == "bin" and d_[1] in ("Eq", "Ne", "Lt", "Le", "Gt", "Ge") and d_[3][0] == "const" and strip_refs(d_[2])[:2] == ("var", cl):
+                        k_ = d_[3][1]
+                        val_ = {"Eq": kv == k_, "Ne": kv != k_, "Lt": kv < k_, "Le": kv <= k_, "Gt": kv > k_, "Ge": kv >= k_}[d_[1]]
+                        tk_ = tt_["otherwise"]
+                        for v_, b_ in tt_["targets"]:
+                            if v_ == int(val_):
+                                tk_ = b_
+                        nxt_ = [tk_]
+                st2.extend((n_, kv) for n_ in nxt_)
+            if twice:
+                break
+        if twice:
+            rep.violation(R4, enc.body.name, "flush-twice", "a group copied to the output at line %s can be copied again at line %s without the token counter being reset in between: the group's bytes are written twice" % (
+                body.blocks[twice[0]]["term"].get("line"), body.blocks[twice[1]]["term"].get("line")), where)
+        elif fl_blocks and resets:
+            rep.ok(R4, {"flush_reset": "every flush is followed by a counter reset before the next flush"})
+        # group capacity: between two increments of the token counter the "group full?" test must be passed, or a
+        # ninth token can be stored under the same flag byte
+        incs = set()
+        for bi_, si_, st_ in body.stmts():
+            if st_["k"] == "assign" and not st_["lhs"]["p"] and st_["lhs"]["l"] == cl:
+                tv = body.term_of_rvalue(st_["rv"])
+                if any(x[0] == "bin" and x[1].startswith("Add") for x in walk(tv)) and any(x[0] == "var" and x[1] == cl for x in walk(tv)):
+                    incs.add(bi_)
+        tests = set()
+        for bi_, blk_ in enumerate(body.blocks):
+            tt_ = blk_["term"]
+            if tt_["k"] == "switch":
+                d_ = body.term_of_operand(tt_["d"])
+                if d_[0] == "bin" and d_[1] in ("Eq", "Ne", "Ge", "Gt", "Lt", "Le") and d_[3][0] == "const" and d_[3][1] in (gsize, gsize - 1) and strip_refs(d_[2])[:2] == ("var", cl):
+                    tests.add(bi_)
+        over = None
+        if incs and tests:
+            for i_ in sorted(incs):
+                seen_, st2 = set(), list(body.succs(i_))
+                while st2:
+                    x_ = st2.pop()
+                    if x_ in seen_ or x_ in tests or x_ in resets:
+                        continue
+                    seen_.add(x_)
+                    if x_ in incs:
+                        over = (i_, x_)
+                        break
+                    st2.extend(body.succs(x_))
+                if over:
+                    break
+            if over:
+                l1 = [s_["line"] for s_ in body.blocks[over[0]]["stmts"] if s_["k"] == "assign" and s_["lhs"]["l"] == cl][:1]
+                l2 = [s_["line"] for s_ in body.blocks[over[1]]["stmts"] if s_["k"] == "assign" and s_["lhs"]["l"] == cl][:1]
+                rep.violation(R4, enc.body.name, "group-overfull", "after the token counted at line %s another token can be counted at line %s without the group-full test in between: a group can receive more than %d tokens under one flag byte" % (
+                    (l1 or ["?"])[0], (l2 or ["?"])[0], gsize), where)
+            else:
+                rep.ok(R4, {"group_capacity": "the group-full test lies between any two token counts"})
+
+
 def token_checks(rep, R2, R4, enc, forms, where, flag_shift=7):
     """forms: list of (class predicate on recorded length conds, [spec bytes]) for the reference branch.
     Returns the set of literal thresholds seen."""
@@ -76,6 +195,8 @@ def token_checks(rep, R2, R4, enc, forms, where, flag_shift=7):
     if read is None or cnt is None or gsize is None:
         rep.inconc(R2, "%s: read position / token counter / group size of the main loop not recognised (%s, %s, %s)" % (
             enc.body.name.rsplit("::", 2)[-2], fmt(read)[:20] if read else None, fmt(cnt)[:20] if cnt else None, gsize))
+        if cnt is not None and gsize is not None:
+            group_typestate(rep, R4, enc, cnt, gsize, where)
         return thresholds
     unknown_emission = None
     seen_forms = {}
@@ -274,65 +395,7 @@ def token_checks(rep, R2, R4, enc, forms, where, flag_shift=7):
         rep.ok(R4, {"tail": "flushed iff tokens are buffered"})
     else:
         rep.violation(R4, enc.body.name, "tail-flush", tail, where)
-    # flush / reset pairing on the graph (across iterations): once a group has been copied to the output, the token
-    # counter must be reset before the next copy, or the same group is written twice
-    body = enc.body
-    cl = cnt[1] if cnt[0] in ("var", "local") else None
-    if cl is not None and group_roots:
-        fl_blocks = set(e_["bb"] for p_ in enc.paths for e_ in flushes(p_))
-        resets = set()
-        for bi_, si_, st_ in body.stmts():
-            if st_["k"] == "assign" and not st_["lhs"]["p"] and st_["lhs"]["l"] == cl and st_["rv"]["k"] == "use" and "k" in st_["rv"]["a"]:
-                resets.add(bi_)
-        twice = None
-        from flow import dom_guards as _dg, cond_truth as _ct
-
-        def known_at(f_):
-            """value of the counter established by the guards of the flush block (`count == 8`), if any"""
-            for (a_, s_, c_) in _dg(body, f_):
-                ct_ = _ct(c_)
-                if ct_ and ct_[0][0] == "bin" and ct_[0][1] in ("Eq", "Ne") and ct_[0][3][0] == "const" and strip_refs(ct_[0][2])[:2] == ("var", cl):
-                    if (ct_[0][1] == "Eq") == ct_[1]:
-                        return ct_[0][3][1]
-            return None
-
-        def writes_counter(x_):
-            return any(st_["k"] == "assign" and not st_["lhs"]["p"] and st_["lhs"]["l"] == cl for st_ in body.blocks[x_]["stmts"])
-
-        for f_ in sorted(fl_blocks):
-            seen_, st2 = set(), [(s_, known_at(f_)) for s_ in body.succs(f_)]
-            while st2:
-                x_, kv = st2.pop()
-                if (x_, kv) in seen_:
-                    continue
-                seen_.add((x_, kv))
-                if x_ in fl_blocks:
-                    twice = (f_, x_)
-                    break
-                if x_ in resets:
-                    continue
-                if writes_counter(x_):
-                    kv = None
-                tt_ = body.blocks[x_]["term"]
-                nxt_ = list(body.succs(x_))
-                if kv is not None and tt_["k"] == "switch":
-                    d_ = body.term_of_operand(tt_["d"])
-                    if d_[0] == "bin" and d_[1] in ("Eq", "Ne", "Lt", "Le", "Gt", "Ge") and d_[3][0] == "const" and strip_refs(d_[2])[:2] == ("var", cl):
-                        k_ = d_[3][1]
-                        val_ = {"Eq": kv == k_, "Ne": kv != k_, "Lt": kv < k_, "Le": kv <= k_, "Gt": kv > k_, "Ge": kv >= k_}[d_[1]]
-                        tk_ = tt_["otherwise"]
-                        for v_, b_ in tt_["targets"]:
-                            if v_ == int(val_):
-                                tk_ = b_
-                        nxt_ = [tk_]
-                st2.extend((n_, kv) for n_ in nxt_)
-            if twice:
-                break
-        if twice:
-            rep.violation(R4, enc.body.name, "flush-twice", "a group copied to the output at line %s can be copied again at line %s without the token counter being reset in between: the group's bytes are written twice" % (
-                body.blocks[twice[0]]["term"].get("line"), body.blocks[twice[1]]["term"].get("line")), where)
-        elif fl_blocks and resets:
-            rep.ok(R4, {"flush_reset": "every flush is followed by a counter reset before the next flush"})
+    group_typestate(rep, R4, enc, cnt, gsize, where)
     return thresholds
 
 
